@@ -1,6 +1,7 @@
 package lexer
 
 import (
+	"errors"
 	"fmt"
 	"log"
 	"strings"
@@ -12,6 +13,9 @@ const (
 	stickyChars     = "+*/=<>!-&|#%~"
 	nonStrickyChars = "(){}[],:"
 )
+
+// ErrUnterminatedString is the lexer error for a string literal that reaches the end of input.
+var ErrUnterminatedString = errors.New("Lexer: unterminated string literal")
 
 type str struct {
 	next   stateFunc // next state function
@@ -65,6 +69,9 @@ func comment(c rune) str {
 	if c == '\n' {
 		return str{next: eol, doEmit: false, doAdv: true, typ: token.Invalid}
 	}
+	if c == EOF {
+		return str{next: eof, doEmit: false, doAdv: true, typ: token.Invalid}
+	}
 	return str{next: comment}
 }
 
@@ -109,12 +116,18 @@ func stringLit(c rune) str {
 	case c == '\\':
 		return str{next: escapeStringLit}
 
+	case c == EOF:
+		return str{err: ErrUnterminatedString}
+
 	default:
 		return str{next: stringLit}
 	}
 }
 
-func escapeStringLit(_ rune) str {
+func escapeStringLit(c rune) str {
+	if c == EOF {
+		return str{err: ErrUnterminatedString}
+	}
 	return str{next: stringLit}
 }
 
